@@ -92,6 +92,14 @@ def register(R, tier="quick"):
             fs.append(f)
         out["failures"] = fs
         return out
+    def qfn01(tier_, seed):
+        out = dict(qfn(tier_, seed))
+        out["failures"] = [f for f in out.get("failures", []) if not f["case"].startswith("C11-")]
+        return out
+    def qfn11(tier_, seed):
+        out = dict(qfn(tier_, seed))
+        out["failures"] = [f for f in out.get("failures", []) if f["case"].startswith("C11-") or f["case"].startswith("exception")]
+        return out
     def qfn13(tier_, seed):
         out = dict(qfn(tier_, seed))
         fs = []
@@ -107,7 +115,12 @@ def register(R, tier="quick"):
                           "values one day apart): open, closed and half-open intervals with bounds on and between stored values, over "
                           "1-3 segments with deletions, every access path",
                     note="index-level counterpart of the range-splitting proofs: which documents a range query returns")
-    R.bounded_check("queries-bounded@C01", ["C01"], qfn,
+    R.bounded_check("queries-bounded@C11", ["C11"], qfn11,
+                    bound="the matcher of every generated query of queries-bounded (Phrase, span-near, Prefix, Wildcard, Regex, "
+                          "TermRange, NumericRange, DateRange, Every; corpora of <= 8 docs, 1-3 segments, 0-1 deletion): stepping, "
+                          "skip_to(t) for every t, copy after 1-2 steps, reset after 0-2 steps",
+                    note="cursor protocol of the span / phrase / multi-term / range matchers against the brute-force matched set")
+    R.bounded_check("queries-bounded@C01", ["C01"], qfn01,
                     bound="two deterministic large corpora (600 docs: phrase / span-near under limits 1..100 over posting blocks of "
                           "2, 8, 128; 4300 docs: Or of 3 and 4 terms, scored / unscored / sorted) and "
                           "random corpora (<= 8 docs of <= 6 tokens over a 16-word vocabulary, 0-2 segment cuts, 0-1 deletion, posting "
